@@ -1,6 +1,7 @@
 import Scion.Model.Signer
 import Scion.Proofs.Signer
 import Scion.Props.C34
+import Scion.Gen.Pki2
 /-!
 # C36 — Signers are backed by a currently verifiable chain and expire in time
 
@@ -10,9 +11,12 @@ Property theorems only.  The model (`Scion.Model.Signer`) mirrors `SignerGen.Gen
 >= 1 s margin).  "The chain verifies now against TRC i" is an oracle Boolean per chain
 (`okLatest`, `okPred`), obtained by really calling `cppki.VerifyChain`; what it means is C34.
 
-The clause "messages it signs verify with a verifier bound to its ISD-AS" is cryptographic
-(ECDSA, protobuf): it is evaluated on the real `Signer.Sign` / `trust.Verifier` for every
-generated signer by the harness predicate, not modelled (see `registry/C36.json`).
+The clause "messages it signs verify with a verifier bound to its ISD-AS": the decisions
+`Verifier.Verify` takes on the key id (bound ISD-AS, wildcard, engine, chains) are modelled
+(`verifyMsg`, theorem `verifies_with_bound_ia`) with the ECDSA check as an oracle bit per chain;
+that a message produced by the real `Signer.Sign` of a generated signer does verify with the
+real `trust.Verifier` bound to its ISD-AS (and not with one bound elsewhere) is evaluated on the
+real code for every generated signer by the harness predicate.
 -/
 namespace Scion.C36
 open Scion.Chain Scion.Signer
@@ -344,6 +348,48 @@ theorem lastExpiring_none_iff (signers : List (Int × Int)) (nb na : Int) :
     have : c ∈ signers.filter (fun s => covers s.1 s.2 nb na) := by rw [hf]; simp
     simp only [List.mem_filter, covers, Bool.and_eq_true, decide_eq_true_eq] at this
     exact fun hall => hall c this.1 this.2
+
+/-! ## Verification with a verifier bound to an ISD-AS -/
+
+/-- **`verifies_with_bound_ia`.**  `Verifier.Verify` accepts a signed message iff its header and
+key id parse, the key id carries a subject key id, the verifier is unbound or bound to exactly
+the ISD-AS named in the key id (which `Signer.Sign` sets to the signer's ISD-AS), that ISD-AS
+is not a wildcard, the engine accepts the TRC notification and hands out at least one chain
+whose AS key verifies the signature. -/
+theorem verifies_with_bound_ia (v : VerifyIn) :
+    verifyMsg v = true ↔
+      v.hdrOk = true ∧ v.skidEmpty = false ∧ (v.boundIA = 0 ∨ v.boundIA = v.ia) ∧
+      isWildcard v.ia = false ∧ v.engineNil = false ∧ v.notifyOk = true ∧
+      ∃ cs, v.chains = some cs ∧ true ∈ cs := by
+  unfold verifyMsg
+  cases v.hdrOk <;> cases v.skidEmpty <;> cases isWildcard v.ia <;> cases v.engineNil <;>
+    cases v.notifyOk <;> simp
+  all_goals
+    by_cases h0 : v.boundIA = 0
+    · cases hc : v.chains <;> simp [h0]
+    · by_cases h1 : v.boundIA = v.ia
+      · cases hc : v.chains <;> simp [h0, h1]
+      · cases hc : v.chains <;> simp [h0, h1]
+
+/-- a verifier bound to another ISD-AS never accepts -/
+theorem bound_other_ia_rejected (v : VerifyIn) (hb : v.boundIA ≠ 0) (hne : v.boundIA ≠ v.ia) :
+    verifyMsg v = false := by
+  cases h : verifyMsg v
+  · rfl
+  · have := (verifies_with_bound_ia v).1 h
+    rcases this.2.2.1 with h0 | h1
+    · exact absurd h0 hb
+    · exact absurd h1 hne
+
+/-! ## Facts regenerated from the source (T3) -/
+
+theorem gen_call_order :
+    Gen.Pki2.bestForKeyCalls =
+      ["SubjectKeyID", "SelectSignatureAlgorithm", "Chains", "filterChains", "bestChain", "bestChain",
+       "minTime", "minTime", "minTime", "GracePeriodEnd"] ∧
+    Gen.Pki2.bestChainCalls = ["VerifyChain", "Before"] ∧
+    Gen.Pki2.signerValidateCalls = ["Sub"] := by
+  decide
 
 /-! ## Non-vacuity -/
 
